@@ -10,6 +10,7 @@ import Driver.OpsBf2
 import Driver.OpsEc
 import Driver.OpsRw
 import Driver.OpsDer
+import Driver.OpsEcdsa
 /-!
 Line-protocol driver of the executable model: one operation per input line,
 one canonical result line per operation.
@@ -46,7 +47,7 @@ def dispatch (line : String) : String :=
     | "crcstep" => opCrcStep args
     | "crcrow" => opCrcRow args
     | _ =>
-      match (cryptoOps ++ bf3Ops ++ textOps ++ bec2Ops ++ modeOps ++ cfgOps ++ bf2Ops ++ ecOps ++ rwOps ++ derOps ++ codecOps).find? (·.1 == op) with
+      match (cryptoOps ++ bf3Ops ++ textOps ++ bec2Ops ++ modeOps ++ cfgOps ++ bf2Ops ++ ecOps ++ rwOps ++ derOps ++ codecOps ++ ecdsaOps).find? (·.1 == op) with
       | some (_, f) => f args
       | none => "bad-op"
 
